@@ -383,6 +383,7 @@ class FunctionRun:
             vc.inlined = []
             vc.repo = self.repo
             s, args, kwargs = c.setup(vc)
+            vc._s = s                      # contract state, for env() / hooks that need it before requires() runs
             g.update(c.env(vc))
             vc.hooks = dict(c.hooks(s)) if hasattr(c, 'hooks') else {}
             rt = Runtime(vc, c, s)
@@ -435,6 +436,8 @@ class FunctionRun:
         except RecursionError as e:
             self.error = 'out of subset: recursion limit'
         self.gen_s = time.time() - t0
+        # +inf is a real constant above every finite literal the code can mention (floats are < 1.8e308)
+        vc.axioms = list(vc.axioms) + [npspec.INF > z3.RealVal(10) ** 300]
         # name the obligations: <prop>/<qualname>/<kind>#<n>
         counts = {}
         for o in vc.obligations:
